@@ -126,6 +126,28 @@ def check(rep, tier, seed):
                 if bad:
                     rep.add(Query("roll_if_needed path %d: size test wrong" % i, "violated", str(bad[0]), bad[1], "mirsym+z3", key="C19.rolling-log.size", model=bad[0], reproduced=None))
         rep.functions_encoded.append("proxy_agent_shared::" + c2[0])
+    # 2b. the writers: the roll decision is taken BEFORE the file is opened for this write (a handle opened first still points at the file the
+    #     roll has just archived: the write lands in the archive, which then exceeds its limit by more than one write)
+    for fn in ("write_line", "write_many"):
+        cw = [p for p in sctx.idx.files if re.search(r"rolling_logger.*::%s$" % fn, p)]
+        if len(cw) != 1:
+            rep.add(Query("RollingLogger::%s located" % fn, "inconclusive", "%d candidates" % len(cw), 0, "mirsym", key="C19.rolling-log.write-order"))
+            continue
+        ew = sctx.engine(loop_bound=1, max_paths=4000)
+        ew.auto_inline = sctx.new_function_auto()
+        nw = 0
+        for i, r in enumerate(ew.explore(cw[0])):
+            wr = [e for e in r.events if e.kind == "call" and re.search(r"Write>::write_all$|Write>::write$|(^|::)write_all$", e.callee)]
+            if not wr:
+                continue
+            nw += 1
+            ro = [e for e in r.events if e.kind == "call" and e.callee.endswith("roll_if_needed")]
+            op = [e for e in r.events if e.kind == "call" and (e.callee.endswith("open_file") or re.search(r"OpenOptions::open$|File::create$", e.callee))]
+            ok = len(ro) == 1 and len(op) == 1 and r.events.index(ro[0]) < r.events.index(op[0]) < r.events.index(wr[0]) and implied(r, ro[0].ret.discr() != 1)
+            rep.add(Query("%s path %d: roll_if_needed (once, successful) precedes the one open of the file that is written" % (fn, i), "holds" if ok else "violated",
+                          "order: %s" % [e.callee.split("::")[-1] for e in r.events if e in ro + op + wr[:1]], 0, "mirsym+z3", key="C19.rolling-log.write-order", reproduced=None))
+        rep.functions_encoded.append("proxy_agent_shared::" + cw[0])
+        rep.add(Query("witness: %s has a writing path" % fn, "witness-hit" if nw else "witness-missed", "%d" % nw, 0, "mirsym"))
     # 3. event directory cap: event_logger::start
     c3 = [p for p in sctx.idx.files if re.search(r"event_logger::start::\{closure#0\}$", p)]
     if len(c3) == 1:
